@@ -22,7 +22,10 @@ TRUSTED_BASE = [
     "Rust harness /verif/harness engine `bstream`: the real RouterHandler::read_from_router (io.rs bmp_read/BmpStream::next, the read loop, "
     "process_msg, the post-loop cleanup) over a scripted AsyncRead, through the facade rotonda::verif::bmp_stream (feature verif-hooks); the "
     "updates are captured by a real Link in direct-update mode; the connection objects are built as unit.rs builds them",
-    "well-formed BMP messages come from the repository's test encoders (rotonda::bgp::encode) via `vh bstream-render`",
+    "well-formed BMP messages come from the repository's test encoders (rotonda::bgp::encode) via `vh bstream-render`; the UPDATE octets of the "
+    "`RB` frames come from C04's proved encoder (oracle c04enc) and are read on the model side by C04's decoder (Pipe/PipeRaw.raw_upd)",
+    "op G: the real RouterListApi / RouterInfoApi process_request and the metrics sources, wired to the connection's own maps, state machine and "
+    "metrics by StreamFixture::http_get_router_list / http_get_router_info (verif-hooks); each request in a task of its own (a panic = `panic`)",
     "modelled, not verified: src/units/bmp_tcp_in/{io.rs,router_handler.rs}; the state machine and the ingress register are the models of C05/C14; "
     "routecore's BMP/BGP parsers and tokio are exercised, never modelled: the parser is a parameter of the model and every theorem holds for every parser",
 ]
@@ -35,6 +38,11 @@ ASSUMPTIONS = [
     "MessageType::Aborted is never produced (BmpState::_Aborted is never constructed in the code)",
     "frames that declare more than 1 MiB are not executed (bmp_read allocates the declared length before reading): noted, not run",
     "HashMap iteration order is arbitrary: id lists are compared as sorted lists of canonical names",
+    "the HTTP client visits while the connection waits for its next read (between two reads): a request concurrent with process_msg is not explored; "
+    "a visit after the session ended is not made (in production the router's endpoint is gone by then)",
+    "recent parse errors are one per InvalidMessage answer of the state machine (arrival numbers); an UPDATE re-parsed with the other AS width "
+    "(soft fail) is not modelled - no generated well-formed stream produces one (it would show as a different e<count>); arrival order on the page is "
+    "read off the entries' timestamps (wall clock, nanoseconds)",
 ]
 
 
@@ -47,8 +55,11 @@ def render(descrs):
     return dict(zip(descrs, lines))
 
 
+GET = "G"      # stream item: an HTTP client asks for the unit's pages at this point (no read event)
+
+
 class Stream:
-    """flat list of items: int (a byte) or str (an error kind)."""
+    """flat list of items: int (a byte), str (an error kind) or GET."""
 
     def __init__(self, items=None):
         self.items = list(items or [])
@@ -75,6 +86,8 @@ class Stream:
                     return frames, "end"
                 x = it[i]
                 i += 1
+                if x == GET:
+                    continue
                 if isinstance(x, str):
                     if x not in NONFATAL and stop_at_fatal:
                         return frames, "fatal"
@@ -102,6 +115,8 @@ class Stream:
                     return frames, "end"
                 x = it[i]
                 i += 1
+                if x == GET:
+                    continue
                 if isinstance(x, str):
                     if x not in NONFATAL and stop_at_fatal:
                         return frames, "fatal"
@@ -125,7 +140,10 @@ class Stream:
                 out.append("B " + b[:n].hex())
                 b = b[n:]
         for x in self.items:
-            if isinstance(x, str):
+            if x == GET:
+                flush()
+                out.append("G")
+            elif isinstance(x, str):
                 flush()
                 out.append("E " + x)
             else:
@@ -212,6 +230,15 @@ def classify(case, out):
         ks.append("has-read-error")
     if "Z hang" in case:
         ks.append("unit-shutdown")
+    gs = [x for x in t if x.startswith("g:")]
+    if any(x != "g:-" for x in gs):
+        ks.append("pages-asked")
+    if "g:-" in gs:
+        ks.append("pages-asked-too-late")
+    if any(",e10," in x for x in gs):
+        ks.append("page-lists-10-parse-errors")
+    if "=RB." in case:
+        ks.append("updates-from-c04-encoder")
     if out.strip() == "HUGE":
         ks.append("huge-skipped")
     return ks
@@ -226,6 +253,8 @@ def stream_of_case(case):
             s.add_hex(t[1])
         elif len(t) == 2 and t[0] == "E":
             s.add_err(t[1])
+        elif t == ["G"]:
+            s.items.append(GET)
     return s
 
 
